@@ -485,6 +485,10 @@ func c12Units(tier string) []Unit {
 	}
 	add("group-decorator-reentry-from-below", h.Config{}, nil, []Op{scopeOp(0), scopeOp(1), provide(0, fG1), provide(0, pB0)}, alpha{scopes: []int{1, 2}, ctors: []*uFunc{exported(pG), pG},
 		decos: []*uFunc{dGwB, dBwC, dG}, invokes: []*uFunc{iG, iB, iC}}, 6, explore.Budget{Provides: 1, Decorates: 2, Invokes: 3, Rejected: 0})
+	// the group taken and returned through different slice types over the same
+	// element type (plain, two named slices): the key is (element type, group)
+	add("group-slice-types", h.Config{}, nil, prefixChild, alpha{scopes: []int{0, 1}, ctors: []*uFunc{fG1},
+		decos: []*uFunc{dG, dGns}, invokes: []*uFunc{iG, iGns, iGns2}}, 5, explore.Budget{Provides: 1, Decorates: 2, Invokes: 2, Rejected: 1})
 	add("defer/mixed", h.Config{Defer: true}, nil, prefixChild, alpha{scopes: []int{0, 1}, ctors: []*uFunc{pA, pB, fG1},
 		decos: []*uFunc{dA, dAB, dG}, invokes: []*uFunc{iA, iB, iG}}, d, b)
 	if !q {
@@ -510,3 +514,9 @@ func c12Units(tier string) []Unit {
 }
 
 var dAe = u.F("dAe", "A", "A,error")
+
+var (
+	dGns  = u.F("dGns", "{A*g}", "{NS!1+g}") // group decorator returning the group as named slice NS
+	iGns  = u.F("iGns", "{A*g^NS}", "")
+	iGns2 = u.F("iGns2", "{A*g^NS2}", "")
+)
